@@ -10,7 +10,7 @@ import vf
 
 ENC_APPS = [2048, 2049, 2051]
 FS = [8000, 12000, 16000, 24000, 48000]
-NPS = 40          # packet streams in the table
+NPS = 64          # packet streams in the table
 
 
 # ------------------------------------------------------------------------------------------------ abstract histories
@@ -70,6 +70,25 @@ def directed_histories():
         D.append(dict(kind=kind, fs=fs, ch=ch, app=0, pre=[], sig=4, fd=8, lsb16=False,
                       ops=[("C", 1), ("U", 1, 0, 4, 0), ("U", 1, 4, 2, 1), ("Y", 1, 2), ("U", 1, 6, 2, 2), ("U", 2, 6, 2, 2), ("R", 1),
                            ("C", 3), ("U", 1, 0, 3, 0), ("U", 3, 0, 3, 0), ("U", 2, 8, 3, 0)], tokens={}, lens=None, modes=[0, 1, 2]))
+    # 16-bit / 24-bit / float decoders on the multi-frame over-range streams (soft clip beyond the first frame of a packet, clipper
+    # memory carried from packet to packet, a loss and a copy in between)
+    for k in range(10):
+        for ch in (1, 2):
+            D.append(dict(kind="d", fs=[48000, 48000, 24000, 16000][(k + ch) % 4], ch=ch, app=0, pre=[], sig=4, fd=8, lsb16=False,
+                          fmts=[0, 2, 1], stream=("mf", k),
+                          ops=[("C", 1), ("C", 2), ("C", 3), ("U", 1, 0, 5, 0), ("U", 2, 0, 5, 0), ("U", 3, 0, 5, 0), ("U", 1, 5, 1, 1),
+                               ("Y", 1, 2), ("U", 1, 6, 4, 0), ("U", 2, 6, 4, 0)], tokens={}, lens=None, modes=[0, 1, 2], tiers=("quick", "thorough") if (k + ch) % 2 else ("thorough",)))
+    # very quiet 16-bit material through the three entry points with the analysis running (complexity 10 also runs it in the
+    # fixed-point build), LSB depth 8..16, 24 frames: band energies between a 16-bit and a 24-bit noise floor
+    q = 0
+    for sig in (12, 13, 14, 15, 16, 17):
+        for (fs, ch) in ((48000, 2), (48000, 1), (16000, 2), (24000, 1)):
+            for lsb in (16, 14, 12, 8):
+                q += 1
+                D.append(dict(kind="e", fs=fs, ch=ch, app=[2049, 2048, 2051][q % 3], pre=[(4036, lsb), (4010, 10), (4002, 64000 * ch)], sig=sig, fd=8,
+                              lsb16=False, ops=[("C", 1), ("C", 2), ("C", 3), ("U", 1, 0, 24, 0), ("U", 2, 0, 24, 1), ("U", 3, 0, 24, 2)],
+                              tokens={}, lens=None, once=True,
+                              tiers=("quick", "thorough") if (fs == 48000 and ch == 2 and lsb in (16, 12)) or q % 8 == 0 else ("thorough",)))
     # finding F14 on every run: projection decoders with 16-bit output, demixed sum beyond the 16-bit range while every stream stays
     # within +-1 (caller matrix of 0.75s on the half-scale music stream); the float and 24-bit twins of the same history are not affected
     D.append(dict(kind="P", fs=48000, ch=5, app=0, pre=[], sig=2, fd=8, lsb16=False, fmts=[0, 2, 1], stream=("E3", 1),
@@ -102,6 +121,19 @@ def packet_streams(rng):
     add("e", 48000, 1, 2049, 48000, 1, 0, 3, 60, "e")
     add("e", 12000, 1, 2048, 16000, 8, 1, 6, 60, "e")
     add("e", 48000, 2, 2048, 40000, 8, 1, 4, 60, "e")
+    # multi-frame packets (codes 1/2/3: 40/60/80/120 ms, made by the encoder and by the repacketizer) of over-range material at low
+    # rates, so that the decoded float signal leaves +-1 in frames after the first: the soft-clip relation beyond the first frame
+    add("e", 48000, 1, 2051, 24000, 16, 0, 4, 30, "mf")
+    add("e", 48000, 2, 2051, 48000, 24, 0, 4, 24, "mf")
+    add("e", 48000, 2, 2049, 40000, 32, 0, 4, 16, "mf")
+    add("e", 48000, 1, 2049, 20000, 48, 0, 4, 12, "mf")
+    add("e", 16000, 1, 2048, 16000, 24, 1, 4, 24, "mf")
+    add("e", 24000, 2, 2051, 40000, 16, 0, 3, 30, "mf")
+    add("R", 48000, 2, 2051, 48000, 8, 3, 4, 24, "mf")        # three 20 ms frames per packet, repacketised
+    add("R", 48000, 1, 2051, 24000, 4, 4, 4, 24, "mf")        # four 10 ms frames
+    add("R", 48000, 2, 2049, 32000, 8, 2, 4, 30, "mf")        # two 20 ms frames
+    add("R", 16000, 1, 2048, 14000, 8, 2, 4, 30, "mf")        # two 20 ms speech-layer frames
+    idx["e"] += idx["mf"]
     for lay in (0, 1, 2, 3):
         add("E", 48000, lay, 2049, 64000 * [2, 3, 6, 4][lay], 8, 0, 4, 40, "E%d" % lay)
         add("E", 48000, lay, 2049, 24000 * [2, 3, 6, 4][lay], 8, 0, 2, 40, "E%d" % lay)
@@ -178,7 +210,7 @@ def instantiate(ops, rng, hid, pid, psidx, pinned=None):
         chlay = pinned["ch"] if "ch" in pinned else rng.choice([4, 5])
         nch = 4
     app = pinned.get("app") or (rng.choice(ENC_APPS) if enc else 0)
-    sig = pinned["sig"] if "sig" in pinned else rng.choice([1, 1, 2, 2, 3, 4, 4, 5, 6, 6, 0, 8, 9, 10, 10, 11] if enc else [1, 1, 2, 2, 3, 4, 4, 5, 6, 6, 0])
+    sig = pinned["sig"] if "sig" in pinned else rng.choice([1, 1, 2, 2, 3, 4, 4, 5, 6, 6, 0, 8, 9, 10, 10, 11, 12, 14, 15, 16, 17] if enc else [1, 1, 2, 2, 3, 4, 4, 5, 6, 6, 0])
     fd = pinned.get("fd") or (rng.choice([1, 2, 4, 8, 8, 8, 8, 16, 24]) if kind == "e" else 8 if rng.random() < 0.7 else rng.choice([2, 4, 16]))
     maxb = 4000 if kind == "E" else 1500
     # settings every created object gets right after creation
@@ -436,7 +468,9 @@ def build_histories(ctx, tier, pid):
         H.append(instantiate(ops, rng, hid, pid, psidx))
     nd = 0
     for d in directed_histories():
-        for rep in range(1 if tier == "quick" else 3):
+        if tier not in d.get("tiers", ("quick", "thorough")):
+            continue
+        for rep in range(1 if tier == "quick" or d.get("once") else 3):
             hid += 1
             nd += 1
             H.append(instantiate(d["ops"], rng, hid, pid, psidx, pinned=d))
